@@ -5,6 +5,7 @@ go 1.22
 require (
 	github.com/nspcc-dev/neofs-contract v0.0.0
 	golang.org/x/tools v0.24.0
+	gopkg.in/yaml.v3 v3.0.1
 )
 
 require (
